@@ -49,6 +49,11 @@ RunErrors(R, table, QG, RG, minm) ==
     \* the statement is unconditional: any listed marker the reference does not know
     \cup (IF \E p \in DOMAIN table : ~(table[p] \subseteq RG) THEN {"unknown_to_reference"} ELSE {})
 
+\* A root that is not a choice (single top-level node) with an unusable list: the statement both
+\* says "parents with a single child need no markers" and "a root without usable markers ends
+\* the run with an error"; either outcome is accepted there.
+MayFail(R, table, QG) == Root \notin ChoiceParents(R) /\ Own(table, Root) \cap QG = {}
+
 \* flattening: every list is merged into the root's
 FlattenTable(table) == [p \in {Root} |-> UNION {table[q] : q \in DOMAIN table}]
 =============================================================================
